@@ -13,6 +13,7 @@ type c07Conn struct {
 	id     string
 	open   bool
 	client int64 // id of the last successful handshake on this connection, 0 if none
+	zombie bool  // re-registered under the same id: the record in the registry is a fresh unauthenticated one
 	sp     *stream.StreamProcessor
 }
 
@@ -33,7 +34,7 @@ func Harness_C07_histories() {
 	for i := 0; i < n; i++ {
 		now += int64(verif_Byte()) * int64(time.Second)
 		verif_ClockSet(now)
-		switch verif_Choose(6) {
+		switch verif_Choose(7) {
 		case 0: // a transport connection arrives
 			if len(conns) >= 3 {
 				continue
@@ -47,7 +48,7 @@ func Harness_C07_histories() {
 				continue
 			}
 			c := conns[verif_Choose(len(conns))]
-			if !c.open {
+			if !c.open || c.zombie {
 				continue
 			}
 			id := clients[verif_Choose(2)]
@@ -69,7 +70,7 @@ func Harness_C07_histories() {
 				continue
 			}
 			c := conns[verif_Choose(len(conns))]
-			if !c.open {
+			if !c.open || c.zombie {
 				continue
 			}
 			before := sm.clientRegistry.Count()
@@ -86,7 +87,7 @@ func Harness_C07_histories() {
 				continue
 			}
 			c := conns[verif_Choose(len(conns))]
-			if c.open {
+			if c.open && !c.zombie {
 				vsHeartbeat(sm, c.id)
 			}
 		case 5: // kick: whoever holds the client's slot is evicted in favour of a named connection
@@ -107,10 +108,24 @@ func Harness_C07_histories() {
 				}
 			}
 			verif_Cover("C07.kick")
+		case 6: // a control-connection record is registered again under an id the registry already
+			// knows (as the handshake path does with a fresh record around the same stream): the
+			// previous record is evicted - and with it the stream they share
+			if len(conns) == 0 {
+				continue
+			}
+			c := conns[verif_Choose(len(conns))]
+			if !c.open || c.zombie || sm.clientRegistry.GetByConnID(c.id) == nil {
+				continue
+			}
+			sm.RegisterControlConnection(NewControlConnection(c.id, c.sp, nil, "tcp"))
+			c.client = 0
+			c.zombie = true // no further traffic on it in this history; lookups must not return the evicted record
+			verif_Cover("C07.reregistered")
 		case 4: // periodic stale-connection sweep
 			sm.cleanupStaleConnections()
 			for _, c := range conns {
-				if c.open && sm.clientRegistry.GetByConnID(c.id) == nil && c.client != 0 {
+				if c.open && !c.zombie && sm.clientRegistry.GetByConnID(c.id) == nil && c.client != 0 {
 					c.open = false
 					c.client = 0
 				}
